@@ -70,4 +70,13 @@ def plan(tier):
                       'future_conv programs [converter shape (To (C::*)(From&), To (C::*)() with a void source, suspend_point (C::*)(From&, promise<To>&), suspend_point (C::*)(promise<To>&) with a void source, '
                       'To (*)(From&), To (*)(From&, C*), void (C::*)(From&)), timing, outcome (value, source exception, source dropped, converter throws), mode, registration (outer = conv << fn / conv(promise) << fn)]; ' +
                       ('shape x timing x outcome, mode and registration cycling' if quick else 'full product'), (5, 3, 7, 9)))
+    # part 4: the source is resolved by another thread while the adapter is being registered (atomic-window injection, rt.h vf_ainject_arm)
+    K = 12
+    vmt = prod(6, 3, K)
+    units.append(unit(4, 'conv_mt', 'h_adapt_mt', vmt,
+                      'adapter registration against a resolving thread [adapter (callback_await on an existing future / on a future-returning function, call_fn_future_awaiter, future_conv To(C::*)(From&), '
+                      'future_conv suspend_point(C::*)(From&, promise<To>&), discard), outcome (value, exception, drop), k = position of the atomic instruction of the registration in front of which the '
+                      'other thread\'s complete resolve operation lands (1..%d; beyond the last one: after the registration)]; full product' % K, (5, 7, 9),
+                      outside='interleavings in which the resolving operation itself is split by steps of the registering thread (two-sided interleavings of future/promise are the E2 scenarios of C01/C02); callbacks that throw'))
+    units[-1]['concrete'] = [([a, o, k], [5, 7, 9]) for a in range(6) for o, k in ((0, 1), (1, 3), (2, 5), (0, 7), (1, 11))]
     return units
